@@ -39,6 +39,8 @@ def run(tier, seed, replay=None):
         raise vlib.Inconclusive("dupnode harness: " + "; ".join(dres["inconclusive"][:3]))
     for viol in dres["violations"]:
         v.violation(viol["sig"], viol["what"], viol["replay"])
+    if dres["evaluations"] < 3 and not dres["violations"]:
+        raise vlib.Inconclusive("duplicate-node scenarios: only %d could be judged (an instance lost its link in the others)" % dres["evaluations"])
     nt = nodetrace.validate(wd, [hooks, dhooks])
     for d in nt["diffs"]:
         if d["event"] in C11_EVENTS or any(w == "handled_update_that_must_be_rejected" or w.startswith("read_on_after_") for w in d["what"]):
